@@ -95,8 +95,8 @@ LEAF_POOL = {
     "fraction": [fractions.Fraction(1, 3), fractions.Fraction(-7, 2), fractions.Fraction(5), fractions.Fraction(0)],
     "ipv4addr": [ipaddress.IPv4Address("127.0.0.1"), ipaddress.IPv4Address("255.255.255.255")],
     "ipv6addr": [ipaddress.IPv6Address("::1"), ipaddress.IPv6Address("2001:db8::ff00:42:8329")],
-    "ipv4net": [ipaddress.IPv4Network("10.0.0.0/8"), ipaddress.IPv4Network("192.168.1.0/24")],
-    "ipv6net": [ipaddress.IPv6Network("2001:db8::/32")],
+    "ipv4net": [ipaddress.IPv4Network("10.0.0.0/30"), ipaddress.IPv4Network("192.168.1.0/29")],
+    "ipv6net": [ipaddress.IPv6Network("2001:db8::/126")],
     "ipv4if": [ipaddress.IPv4Interface("192.168.1.7/24")],
     "ipv6if": [ipaddress.IPv6Interface("2001:db8::1/64")],
     "path": [pathlib.Path("a/b.txt"), pathlib.Path("/"), pathlib.Path(".")],
@@ -531,6 +531,37 @@ def ty_nodes(ty):
         yield from ty_nodes(s)
 
 
+def map_ty(ty, f):
+    """rebuild a type bottom-up, applying f to every node (after its children)"""
+    if isinstance(ty, str):
+        return f(ty)
+    tag = ty[0]
+    r = map_ty
+    if tag in ("leaf", "enum", "lit"):
+        out = ty
+    elif tag in ("opt", "tvar"):
+        out = [tag, r(ty[1], f)]
+    elif tag in ("union", "tfix"):
+        out = [tag, [r(t, f) for t in ty[1]]]
+    elif tag == "coll":
+        out = [tag, ty[1], r(ty[2], f)]
+    elif tag == "map":
+        out = [tag, ty[1], r(ty[2], f), r(ty[3], f)]
+    elif tag == "chain":
+        out = [tag, r(ty[1], f), r(ty[2], f)]
+    elif tag == "tunp":
+        out = [tag, [r(t, f) for t in ty[1]], r(ty[2], f), [r(t, f) for t in ty[3]]]
+    elif tag == "nt":
+        out = [tag, ty[1], [[n, r(t, f)] for n, t in ty[2]], ty[3], ty[4]]
+    elif tag == "td":
+        out = [tag, ty[1], [[n, r(t, f)] for n, t in ty[2]], [[n, r(t, f)] for n, t in ty[3]]]
+    elif tag == "dc":
+        out = [tag, ty[1], ty[2], [[fd, r(t, f)] for fd, t in ty[3]]]
+    else:
+        raise ValueError(tag)
+    return f(out)
+
+
 def v_nodes(v):
     yield v
     if v is None or v is True or v is False:
@@ -571,6 +602,12 @@ def ty_constants(ty):
                 if fd.get("default") is not None:
                     out.append(fd["default"][1])
     return out
+
+
+def _iter_leaf(obj):
+    if isinstance(obj, (ipaddress.IPv4Network, ipaddress.IPv6Network)) and obj.num_addresses > 300:
+        raise OverflowError("too many hosts")
+    return list(obj)
 
 
 def build_oracle(ty, values, reg, direction: str):
@@ -616,6 +653,17 @@ def build_oracle(ty, values, reg, direction: str):
         except Exception as e:  # noqa
             calls.append([opw, node, ["err", ek_of(e)]])
 
+    for node in list(nodes):
+        if isinstance(node, list) and node[0] == "leaf":
+            n0 = len(calls)
+            run("iter", _iter_leaf, node)
+            for c in calls[n0:]:
+                if c[2][0] == "ok":
+                    for e in c[2][1][2]:
+                        key = json.dumps(e, sort_keys=True)
+                        if key not in seen:
+                            seen.add(key)
+                            nodes.append(e)
     for node in nodes:
         if direction in ("pack", "both"):
             for k in sorted(kinds):
@@ -646,4 +694,9 @@ def build_oracle(ty, values, reg, direction: str):
             structural = same(node, c)
             if r != structural:
                 eqs.append([node, c, r])
-    return {"calls": calls, "eq": eqs}
+    enums = []
+    for n in ty_nodes(ty):
+        if not isinstance(n, str) and n[0] == "enum":
+            for m, v in n[2]:
+                enums.append([n[1], m, v])
+    return {"calls": calls, "eq": eqs, "enums": enums}
